@@ -86,7 +86,8 @@ CLAIMED["C15"] = ("other", "Mixed: (proof) the atom-layer operators - EqualityMa
 CLAIMED["C02"] = ("other", "Mixed: (proof) the combinator layer - flatten_items, MultiMarker.of / MarkerUnion.of (three nested loops with invariants), cnf/dnf same-kind and leaf branches, intersection(), union(), "
                   "the &/| methods of AnyMarker/EmptyMarker/MultiMarker/MarkerUnion, MultiMarker.union_simplify / MarkerUnion.intersect_simplify (set algebra over members, comprehension invariant) - and the string-atom layer - MarkerExpression._evaluate against its specifier view (both operand orders), _merge_single_markers, MarkerExpression &/|, "
                   "EqualityMarkerUnion/InequalityMultiMarker replace/&/| over symbolic names, literals and value sets - are verified against 'result evaluates as the conjunction/disjunction of the operands' for all environments; "
-                  "(bounded) version-valued atoms (python_version/python_full_version merging and normalisation, extras) and the distributive branch of cnf/dnf are assumed contracts, "
+                  "the merge logic for version-valued atoms (_merge_single_markers / _merge_python_version_single_markers: operator choice, equality shortcuts, re-wrapping through from_specifier) over abstract specifier views; "
+                  "(bounded) that a version atom holds iff its specifier view admits the environment's value, the text arithmetic of _normalize_python_version_specifier, extras, and the distributive branch of cnf/dnf are assumed contracts, "
                   "exercised by the run-time sweep of the same contract on real markers over the well-defined atom pool and an environment grid.",
                   "5 C02", "assumed (bounded) contracts listed in the evidence; law.C13; A-HASHSEED; recorded finding D14",
                   "contract-based deductive verification of the combinator layer (T-MARK, invariants, z3) + bounded stand-in for the atom layer")
